@@ -51,6 +51,15 @@ CHECKS["C10"] = dict(technique=SM, category="model_checking", ref="DESIGN.md sec
           "per-column scales up to 2^64/64."),
     note=TB + " Known finding C10-form-switch is signed; the two-thread clause is checked at call granularity only (lock-removal mutants need the line scheduler, see DESIGN.md).")
 
+FN = "TLA+ specification as oracle: TLC enumerates the abstract input space and checks structural invariants of the specified function; every <input, output> pair is replayed into the real code over simkernel; recorded answers on random inputs are validated by TLC (trace validation)"
+CHECKS["C06"] = dict(technique=FN, category="model_checking", ref="DESIGN.md section 3 C06",
+    text=("ProcStat.tla states what the 12 per-process methods must answer for an abstract stat/status/task record; TLC "
+          "enumerates every comm over a 6-byte alphabet (space, parentheses, newline, 0xff) up to length 2 (thorough 3) plus "
+          "15/16-byte names x 12 state letters x 3 record layouts x 4 tty numbers x 1-2 threads (13k-80k inputs), checks "
+          "independence from the name and one row per thread, and each pair is executed on the real code at counter scales up to 2^64; "
+          "3k-20k random records (non-UTF-8 bytes, 3 threads) are run through the code and the recorded answers judged by TLC."),
+    note=TB + " Floats compared with exact rationals up to 4 ulp.")
+
 PENDING = "check under construction in this round (see DESIGN.md section 6 work order)"
 NA = {}
 
